@@ -157,6 +157,25 @@ def run(ctx):
         elif variant == "Lost":
             g = any(b.dominates(c, i) for c in call_blocks(b, r"StreamFrame::is_fin$"))
             ctx.ob("R3", "%s|fin_state := Lost only for a lost FIN frame" % b.short, g, b.where(line), "guarded by frame.is_fin(): %s" % g)
+            # ... and for EVERY lost FIN frame whose FIN is not acknowledged yet: no further condition may narrow it
+            ds = deciders(b, i)
+            extra = []
+            for (sw, kind, text, truth) in ds:
+                if kind == "call" and re.search(r"StreamFrame::is_fin$", text) and truth is True:
+                    continue
+                if kind == "call" and re.search(r"PartialEq(<.*>)?::(ne|eq)$", text):
+                    # comparison of fin_state with a constant state
+                    cmp_fin = False
+                    for ci, ct in b.calls():
+                        if callee(ct) == text and any(place_has_field(pl, "DataSentSender", "fin_state") for a in ct["args"] for pl in deep_places(b, a, 3)):
+                            cmp_fin = True
+                    if cmp_fin:
+                        continue
+                extra.append("%s %s (taken when %s)" % (kind, text.split("::")[-1] if kind == "call" else text, truth))
+            ctx.ob("R3", "%s|every lost FIN frame marks the FIN lost (no narrowing condition)" % b.short, not extra, b.where(line),
+                   "conditions deciding the `fin_state = Lost` write besides is_fin() and the fin_state test: %s — if the FIN mark depends on "
+                   "anything else (e.g. the frame being empty) a FIN whose data was acknowledged through another frame is never sent "
+                   "again: the reader never sees end-of-stream, shutdown never completes" % (extra or "none"))
     ctx.floor("R3", "fin_state transition sites", n3, 3)
     # ---------------------------------------------------------------- R4: completion predicates consult the buffer
     ctx.rule("R4", "flush/shutdown complete only when the send buffer says every byte is acknowledged: the completion predicates "
